@@ -8,6 +8,7 @@ namespace EPV.SeqType
 theorem Leaf.cls_ne_func (l : Leaf) (a : Tys) (r : Ty) : l.cls ≠ .func a r := by
   cases l <;> try (simp [Leaf.cls]; done)
   case kind k nt => cases k <;> simp [Leaf.cls]
+  case kindT k nt ta o => cases k <;> simp [Leaf.cls]
 
 theorem Ty.cls_func {s : Ty} {a : Tys} {r : Ty} (h : s.cls = .func a r) : s = .func a r := by
   cases s <;> simp [Ty.cls] at h
@@ -173,6 +174,7 @@ theorem isRestriction_trans_aux (tb : Tables) (ht : tb.Trans) : ∀ (n : Nat) (t
             | func a' r' => exact h2f _ _ rfl
             | leaf l o => cases l <;> simp [Ty.strip, Ty.cls, Leaf.cls, coreCls] at hc
                           case kind k nt => cases k <;> simp [Leaf.cls, coreCls] at hc
+                          case kindT k nt ta o' => cases k <;> simp [Leaf.cls, coreCls] at hc
             | _ => simp [Ty.strip, Ty.cls, coreCls] at hc
         have hl2 : t2.last = t2.ownOcc := by cases t2 <;> first | rfl | exact absurd rfl (h2f _ _)
         have hl1 : t1.last = t1.ownOcc := by cases t1 <;> first | rfl | exact absurd rfl (h1f _ _)
